@@ -48,6 +48,7 @@ struct C19Ctx {
   // per-instance attribution (see TrafficSnap): arena of the object the operation in flight works on, and
   // whether blocks of `double` are item payload for this family (points / summaries that carry their own allocator)
   struct Arena* target = nullptr;
+  const struct Arena* forbidden = nullptr;   // debugging aid (C19_TRAP_FOREIGN=1): crash on the first call through this arena
   bool double_is_item_payload = false;
 };
 inline C19Ctx& c19ctx() { static C19Ctx c; return c; }
@@ -94,7 +95,11 @@ enum { TAG_OTHER = 0, TAG_CHAR = 1, TAG_DOUBLE = 2 };
 inline bool is_item_payload(int tag) { return tag == TAG_CHAR || (tag == TAG_DOUBLE && c19ctx().double_is_item_payload); }
 inline void* arena_allocate(Arena* a, size_t n, size_t elem, int tag = TAG_OTHER) {
   Exempt e;
-  if (!is_item_payload(tag)) a->n_alloc++;
+  if (!is_item_payload(tag)) {
+    a->n_alloc++;
+    static const bool trap_foreign = getenv("C19_TRAP_FOREIGN") != nullptr;
+    if (trap_foreign && a == c19ctx().forbidden) { --exempt_depth(); char* volatile nil = nullptr; *nil = 0; }
+  }
   if (a == &default_arena()) {
     count("alloc_via_default_constructed_allocator");
     static const bool trap = getenv("C19_TRAP_DEFAULT_ALLOC") != nullptr;   // debugging aid: stack trace of the offender
